@@ -351,6 +351,10 @@ template <typename T> std::string show(const T &v);
 inline std::string showValue(bool v) { return v ? "true" : "false"; }
 inline std::string showValue(int v) { return std::to_string(v); }
 inline std::string showValue(uint v) { return std::to_string(v) + "u"; }
+inline std::string showValue(long v) { return std::to_string(v) + "l"; }
+inline std::string showValue(unsigned long v) { return std::to_string(v) + "ul"; }
+inline std::string showValue(long long v) { return std::to_string(v) + "ll"; }
+inline std::string showValue(unsigned long long v) { return std::to_string(v) + "ull"; }
 inline std::string showValue(double v) { char b[64]; if (v == 0) v = 0; snprintf(b, sizeof b, "%a", v); return b; }
 inline std::string showValue(const QString &v) { return "s:" + v.hex(); }
 inline std::string showValue(const QStringList &v) { std::string o = "["; for (auto &s : v) o += s.hex() + ","; return o + "]"; }
@@ -358,6 +362,10 @@ inline std::string showValue(const QVariant &v) { return "v" + std::to_string(in
 inline std::string showValue(const QObject *o) { return o ? "@" + o->vname : std::string("@null"); }
 template <typename E, std::enable_if_t<std::is_enum_v<E>, int> = 0>
 std::string showValue(E e) { return "e" + std::to_string(static_cast<long long>(e)); }
+template <typename T, typename = void> struct HasVShow : std::false_type {};
+template <typename T> struct HasVShow<T, std::void_t<decltype(std::declval<const T &>().vshow())>> : std::true_type {};
 template <typename T, std::enable_if_t<std::is_class_v<T> && !std::is_base_of_v<QObject, T>, int> = 0>
-std::string showValue(const T &) { return "<gadget>"; }
+std::string showValue(const T &v) {
+    if constexpr (HasVShow<T>::value) return v.vshow(); else return "<gadget>";
+}
 }  // namespace verif
